@@ -51,21 +51,21 @@ CONSTANTS
   AllKeys <- TraceAllKeys
 INVARIANT Report
 POSTCONDITION Accepted
+VIEW View
 CHECK_DEADLOCK FALSE
 """
 
 
-def balloon_tv_stage(ctx):
-    """Real Balloon (RocksDB / B+ store, JSON wire, real verifiers) -> traces -> Trace_Balloon.tla"""
-    nfiles = ctx.pick(12, 16)
-    outdir = os.path.join(ctx.work, "bal")
+def trace_files_stage(ctx, driver, prefix, nfiles, module="Trace_Balloon", cfg=None, extra_args=None):
+    """run `drv <driver>` nfiles times in parallel, validate every trace with TLC, collect VIOL tags"""
+    cfg = cfg or BALLOON_CFG
+    outdir = os.path.join(ctx.work, prefix)
     os.makedirs(outdir, exist_ok=True)
     ctx.build_drv()
 
     def gen(fi):
-        return ctx.run_drv(["balloon", "-out", outdir, "-fi", str(fi), "-files", "1", "-tier", ctx.tier,
-                            "-seed", str(ctx.seed)], timeout=3000)
-    t0 = time.time()
+        return ctx.run_drv([driver, "-out", outdir, "-fi", str(fi), "-files", "1", "-tier", ctx.tier,
+                            "-seed", str(ctx.seed)] + (extra_args or []), timeout=3000)
     for p in par_map(gen, range(nfiles)):
         try:
             st = json.loads(p.stdout.strip().splitlines()[-1])
@@ -73,14 +73,14 @@ def balloon_tv_stage(ctx):
                 ctx.count("drv_" + k, v)
         except Exception:
             pass
-    files = sorted(glob.glob(os.path.join(outdir, "balloon_*[0-9].ndjson")))
+    files = sorted(glob.glob(os.path.join(outdir, prefix + "_*[0-9].ndjson")))
     if len(files) != nfiles:
-        raise Infra("balloon driver produced %d of %d traces" % (len(files), nfiles))
+        raise Infra("%s driver produced %d of %d traces" % (driver, len(files), nfiles))
 
     def validate(path):
         defs = path.replace(".ndjson", ".defs.ndjson")
         tag = "tv_" + os.path.basename(path).split(".")[0]
-        r = ctx.tlc("Trace_Balloon", BALLOON_CFG % (path, defs), tag, workers=1, timeout=ctx.pick(1500, 5400))
+        r = ctx.tlc(module, cfg % (path, defs), tag, workers=1, timeout=ctx.pick(1500, 5400))
         return path, r
     t1 = time.time()
     results = par_map(validate, files)
@@ -97,9 +97,8 @@ def balloon_tv_stage(ctx):
             ctx.count("ev_" + k, v)
         viol = parse_viol(r["out"])
         if viol is None or r.get("depth") != n:
-            # the trace was not consumed to the end: specification could not take a step
             tail = "\n".join(r["out"].splitlines()[-25:])
-            raise Infra("trace %s not fully consumed by Trace_Balloon (depth %s of %d)\n%s" % (path, r.get("depth"), n, tail))
+            raise Infra("trace %s not fully consumed by %s (depth %s of %d)\n%s" % (path, module, r.get("depth"), n, tail))
         for shadow, prop, line, what in viol:
             where = "%s:%d" % (path, line)
             if prop.startswith("D"):
@@ -111,6 +110,16 @@ def balloon_tv_stage(ctx):
                 ctx.violation(prop, what, where)
     ctx.count("distinct_nontrivial", len(distinct))
     ctx.count("evaluations", ctx.tv["events"])
+
+
+def adversary_tv_stage(ctx):
+    """Altered / recombined / forged answers -> real JSON decoder + real verifier -> Trace_Balloon.tla"""
+    trace_files_stage(ctx, "adversary", "adv", ctx.pick(8, 16))
+
+
+def balloon_tv_stage(ctx):
+    """Real Balloon (RocksDB / B+ store, JSON wire, real verifiers) -> traces -> Trace_Balloon.tla"""
+    trace_files_stage(ctx, "balloon", "balloon", ctx.pick(12, 16))
 
 
 HISTORY_CFG = """SPECIFICATION Spec
@@ -145,10 +154,36 @@ RULE_BALLOON = ("MC: every tree size up to MaxN, every (index, version)/(start, 
                 "batch/cache boundary + random ones; random Add/AddBulk splits, duplicates, reopen points, RocksDB and B+ store); "
                 "a case is distinct by (event kind, versions involved); non-trivial = add/member/incr events (resets excluded)")
 
+MCB_CFG = """SPECIFICATION Spec
+CONSTANTS
+  MaxLen = @MaxLen@
+  MaxBulk = 2
+  Pinned = FALSE
+  NB = 8
+  CL = 4
+  AllKeys <- U
+  KeyBits <- Bits8
+INVARIANT Complete
+INVARIANT SearchTLemma
+INVARIANT HyperMapSane
+INVARIANT Sound
+CHECK_DEADLOCK FALSE
+"""
+mc_balloon = mc_stage("MC_Balloon", MCB_CFG, quick={"MaxLen": 2}, thorough={"MaxLen": 3}, timeout=6000)
+
+RULE_ADV = ("MC: 8-bit universe (7 keys, prefixes 0..7 bits), every insertion sequence up to MaxLen with bulks, every candidate "
+            "answer with up to two edits (all field combinations x key / dropped entry; every entry replaced by every known digest; "
+            "recombinations), exhaustive. TV: genuine answers of a real balloon altered by the mutation grammar (fields, other "
+            "digests sharing prefixes of 0..255 bits, dropped/replaced/renamed/extra/malformed/oversized path entries, wrong lengths, "
+            "recombination, wrong snapshots, 2^63 magnitudes), decoded by the real JSON decoder and verified by the real verifier in a "
+            "guarded goroutine with a deadline; distinct = (kind, versions); non-trivial = altered answers")
+
 PLANS = {
     "C01": plan("model_checking", [mc_history, balloon_tv_stage], RULE_BALLOON),
+    "C02": plan("model_checking", [mc_balloon, adversary_tv_stage], RULE_ADV),
     "C03": plan("model_checking", [mc_history, balloon_tv_stage], RULE_BALLOON),
     "C04": plan("model_checking", [mc_history, balloon_tv_stage], RULE_BALLOON),
+    "C12": plan("model_checking", [mc_balloon, adversary_tv_stage], RULE_ADV),
 }
 
 
@@ -158,7 +193,7 @@ def replay(ctx, path):
     info = json.load(open(path))
     print(json.dumps(info, indent=1)[:4000])
     rc = 0
-    for f in sorted(glob.glob(os.path.join(d, "balloon_*[0-9].ndjson"))):
+    for f in sorted(glob.glob(os.path.join(d, "*_[0-9][0-9].ndjson"))):
         defs = f.replace(".ndjson", ".defs.ndjson")
         r = ctx.tlc("Trace_Balloon", BALLOON_CFG % (f, defs), "replay", workers=1, timeout=3000)
         for shadow, prop, line, what in parse_viol(r["out"]) or []:
